@@ -29,6 +29,7 @@ mod model;
 mod probe;
 mod proto;
 mod rng;
+mod timegen;
 
 use std::path::PathBuf;
 
